@@ -6,16 +6,16 @@ ENGINE = {'name': 'udp',
  'case_type': 'c09case',
  'check': 'check',
  'imports': ['From L4.model Require Import Udp.'],
- 'n_quick': 90,
+ 'n_quick': 72,
  'n_thorough': 900,
  'timeout': 900,
  'timeout_thorough': 1500,
  'shard': 12,
  'serves': ['C09'],
  'rule': 'scenarios: a corpus (handler that never reads then returns while the loop is blocked in its send; 40-datagram burst to a handler that '
-         'returns at once; a jumbo datagram read in part, Close, other clients\' datagrams, then Read again on the closed association; idle expiry followed by a late Close; idle expiry at the moment closeCh is full (loop blocked on a full readCh, ten associations finishing) followed by a datagram before the old handler returns; read-once handlers followed by later datagrams; four interleaved clients with '
+         'returns at once; datagrams of buf-1, buf, buf+1 bytes for reader buffers of 9000 / 2048 / 100 / 1 bytes, with and without a matcher in front (2048-byte prefetch read); a jumbo datagram read in part, Close, other clients\' datagrams, then Read again on the closed association; idle expiry followed by a late Close; idle expiry at the moment closeCh is full (loop blocked on a full readCh, ten associations finishing) followed by a datagram before the old handler returns; read-once handlers followed by later datagrams; four interleaved clients with '
          'jumbo datagrams read through small buffers, scripted and over real loopback sockets; backpressure count) plus random scenarios: 1-4 '
-         'client addresses from one of six address sets (differing only in port / IP / IPv6 zone / family / non-UDP type), 2-80 datagrams of 16..9000 bytes in a random interleaving, per-client handler kinds echo / read n '
+         'client addresses from one of six address sets (differing only in port / IP / IPv6 zone / family / non-UDP type), 2-80 datagrams of 16..9000 bytes (a third sized buf-1 / buf / buf+1 for the reading handler\'s buffer; buffers 9000, 4096, 2048, 1024, 512, 100, 1; a quarter of the scenarios put a data-needing matcher in front so that the first Read is the 2048-byte prefetch) in a random interleaving, per-client handler kinds echo / read n '
          'and return / return immediately / stall until released / idle out, optional waits for an association to end; every third random '
          'scenario is sequential (each action waits for the visible effect of the previous one) and its log is additionally replayed step by '
          'step through the model\'s exec function; every scenario runs in a child process; a case is the complete event log of one scenario; '
